@@ -224,10 +224,21 @@ fn scenario(w: Work) {
                         ROp::Long(_, n) | ROp::Mapped(_, n) => {
                             // the guard under test: plain, map, try_map (success path) or a downcast of the untyped guard
                             let (mapped, hold): (Option<AssetReadGuard<[u64]>>, Option<AssetReadGuard<Big>>) = if let ROp::Mapped(_, n) = op {
-                                match n % 3 {
+                                match n % 5 {
                                     0 => (Some(AssetReadGuard::map(h.read(), |b| &b.vec[..])), None),
                                     1 => (AssetReadGuard::try_map(h.read(), |b| Some(&b.vec[..])).ok(), None),
-                                    _ => (None, Some(h.as_untyped().read().downcast::<Big>().ok().expect("downcast to the stored type"))),
+                                    2 => (None, Some(h.as_untyped().read().downcast::<Big>().ok().expect("downcast to the stored type"))),
+                                    // the guard handed back by a *failed* projection / wrong-type downcast is still a guard
+                                    3 => match AssetReadGuard::try_map(h.read(), |_| None::<&[u64]>) {
+                                        Err(g) => (None, Some(g)),
+                                        Ok(_) => unreachable!(),
+                                    },
+                                    _ => match h.as_untyped().read().downcast::<BigC>() {
+                                        Err(g) => (None, Some(g.downcast::<Big>().ok().expect("downcast to the stored type after a failed one"))),
+                                        Ok(_) => {
+                                            detsim::fail("C13/wrong-type-view", format!("{id}: an untyped guard on a Big was downcast to BigC"));
+                                        }
+                                    },
                                 }
                             } else {
                                 (None, Some(h.read()))
